@@ -86,6 +86,7 @@ type Stats struct {
 	Executions int
 	MaxChoices int
 	Capped     bool
+	Retries    int // executions repeated because they did not reproduce their forced prefix
 }
 
 // Explore runs scenario for every choice sequence with at most bound deviations. The scenario
@@ -96,12 +97,23 @@ func Explore(bound int, maxExec int, scenario func(x *X), visit func(x *X) bool)
 	prefix := []int{}
 	var prev []Choice
 	for {
-		x := &X{prefix: prefix}
-		cur = x
-		func() {
-			defer func() { cur = nil }()
-			scenario(x)
-		}()
+		var x *X
+		for attempt := 0; ; attempt++ {
+			x = &X{prefix: prefix}
+			cur = x
+			func() {
+				defer func() { cur = nil }()
+				scenario(x)
+			}()
+			// An execution that does not reach the end of its forced prefix was not reproducible. That is a
+			// harness problem, never a verdict. The prefix is re-executed (up to twice) and the retry is counted
+			// in Stats.Retries, which the checks publish in their evidence; a prefix that cannot be reproduced
+			// three times in a row stops the check with a harness error.
+			if len(x.Choices) >= len(prefix) || attempt >= 2 {
+				break
+			}
+			st.Retries++
+		}
 		if len(x.Choices) < len(prefix) {
 			tail := func(cs []Choice) string {
 				out := ""
